@@ -75,6 +75,11 @@ pub trait PropCheck: Sync {
     }
     fn case_json(&self, case: &Self::Case) -> Value;
     fn case_from_json(&self, v: &Value) -> Result<Self::Case, String>;
+    /// does a saved case (the `case` object of a replay / regress file) belong to this check? (properties with several
+    /// stages keep one case type per stage)
+    fn owns_case(&self, _v: &Value) -> bool {
+        true
+    }
 }
 
 #[derive(Clone, Debug)]
